@@ -18,6 +18,8 @@ func main() {
 		cmdVerify(os.Args[2:])
 	case "prop":
 		cmdProp(os.Args[2:])
+	case "replay":
+		cmdReplay(os.Args[2:])
 	case "desugar":
 		fmt.Println(desugar(strings.Join(os.Args[2:], " ")))
 	default:
